@@ -135,9 +135,18 @@ class _Proxy:
         return getattr(object.__getattribute__(self, "_t"), name)
 
 
+def _map(path):
+    """Relative paths live in the simulated working directory when the World has one."""
+    w = CURRENT
+    if w is not None and w.sim_cwd and isinstance(path, str) and path and not path.startswith("/") and "://" not in path:
+        return w.sim_cwd + "/" + path
+    return path
+
+
 def _route(simfn, realfn):
     def f(path, *a, **k):
         w = CURRENT
+        path = _map(path)
         if w is not None and is_sim_path(path):
             return getattr(w.fs, simfn)(path, *a, **k)
         return realfn(path, *a, **k)
@@ -148,6 +157,7 @@ def _route(simfn, realfn):
 
 def _rename(src, dst, *a, **k):
     w = CURRENT
+    src, dst = _map(src), _map(dst)
     if w is not None and is_sim_path(src):
         return w.fs.rename(src, dst)
     return _os.rename(src, dst, *a, **k)
@@ -155,6 +165,7 @@ def _rename(src, dst, *a, **k):
 
 def _replace(src, dst, *a, **k):
     w = CURRENT
+    src, dst = _map(src), _map(dst)
     if w is not None and is_sim_path(src):
         return w.fs.rename(src, dst)
     return _os.replace(src, dst, *a, **k)
@@ -197,6 +208,7 @@ _TIME_PROXY = _Proxy(_time, {"time": _sim_time})
 
 def _sim_open(file, mode="r", buffering=-1, encoding=None, errors=None, newline=None, closefd=True, opener=None):
     w = CURRENT
+    file = _map(file)
     if w is not None and is_sim_path(file):
         return w.fs.open(file, mode, buffering, encoding, errors, newline, closefd, opener)
     return _REAL_OPEN(file, mode, buffering, encoding, errors, newline, closefd, opener)
@@ -214,6 +226,7 @@ class World:
         self.trace = [] if keep_log else None
         self.fs = SimFS(self)
         self.keep = []  # objects that must stay referenced for the whole run
+        self.sim_cwd = None  # when set, relative paths resolve into this SimFS directory
         self._saved = None
         self._gc_was = None
 
